@@ -2,6 +2,7 @@
 From Coq Require Import List ZArith Bool String.
 Import ListNotations.
 Require Import Base Prog Sig Interp InterpFacts Model Validators HasPatcher Contracts State ScnSwitch Switch Loops Gate.
+Require InvModel InvCode Invariant Refine.
 
 (* Every history of switch operations, run on the code generated from deal/_state.py, behaves as the
    two-boolean machine [hist_spec]; any function table, any fuel, any `warn` arguments, either __debug__. *)
@@ -65,6 +66,18 @@ Theorem C07_disabled_inert_async : forall ftab lf c n a k w r w1,
   interp ftab n (call_func (c_func c) a k) w = Done r w1 -> interp ftab n (RunAsync.run lf c a k) w = Done r w1.
 Proof. exact disabled_async. Qed.
 Print Assumptions C07_disabled_inert_sync.
+
+(* class invariants, on the statements regenerated from deal/_runtime/_invariant.py (Gen/Invariant.v, semantics Sem/InvCode.v):
+   while disabled _deal_validate evaluates no invariant, for every class, stack of invariants and instance state; after a permanent
+   disable deal.inv returns the class it was given, however many invariants are stacked *)
+Theorem C07_disabled_invariants_inert : forall cls invs s,
+  InvModel.s_enabled s = false -> InvCode.validate Invariant.code cls invs s = None.
+Proof. exact Refine.validate_inert. Qed.
+Theorem C07_removed_inv_returns_class : forall (A : Type) (vs : list A) invs,
+  InvCode.decorate_all (InvCode.c_invariant Invariant.code) true invs vs = Some invs.
+Proof. exact Refine.decorate_removed. Qed.
+Print Assumptions C07_disabled_invariants_inert.
+Print Assumptions C07_removed_inv_returns_class.
 
 (* non-vacuity: a concrete history meets the premises of C07_permanent_final and of C07_enforced_iff_last *)
 Example C07_nonvacuous :
